@@ -124,15 +124,17 @@ def updNonneg (conv : Conv) (cur new : Val) : Except Err Val :=
     | .qty m u => if m ≥ 0 then .ok (Val.qty m u) else .ok (Val.qty 0 u)
     | _ => .error .typeError
 
+/-- what `update_merge` stores under key `k` for the new value `new`:
+`deep_merge(copy.deepcopy(v), new)` when both are dicts, else `new` -/
+def mergeItem (cur : KVs) (k : String) (new : Val) : Val :=
+  match new, KV.lookup k cur with
+  | .dict nk, some (.dict vk) => Val.dict (deepMergeKVs vk nk)
+  | _, _ => new
+
 /-- the loop of `update_merge`; `cur` is the current value, `upd` the copy being filled -/
 def mergeLoop (cur : KVs) : KVs → KVs → KVs
   | upd, [] => upd
-  | upd, (k, new) :: rest =>
-    let item :=
-      match new, KV.lookup k cur with
-      | .dict nk, some (.dict vk) => Val.dict (deepMergeKVs vk nk)
-      | _, _ => new
-    mergeLoop cur (KV.set k item upd) rest
+  | upd, (k, new) :: rest => mergeLoop cur (KV.set k (mergeItem cur k new) upd) rest
 
 /-- `update_merge` (after the F6 repair) -/
 def updMerge (cur new : Val) : Except Err Val :=
